@@ -114,12 +114,18 @@ def canon_float(x):
 # ------------------------------------------------------------------------------------------
 
 def run_advance(case):
-    """case: one element's state. Returns canonical outputs or {'exc': kind}."""
+    """case: one element's state. Returns canonical outputs or {'exc': kind}.
+    Robustness dimensions (the logical input, hence the model term, is unchanged): case['layout'] 1/2 = every
+    argument is a non-contiguous view (transposed storage, stride-2 slices with storage offset, the expanded
+    stride-0 view the module itself passes when nothing is fused); case['alias'] = ONE tensor object for
+    y_prev_last and y_prev_lens when they are equal (the module's own first call does that); case['call'] = 'kw';
+    case['f32'] (dyadic values exact in float32); case['batch'] = (size, position): the element sits in a batch
+    next to elements with other masses; afterwards the arguments must be unchanged."""
     from pydrobert.torch.functional import ctc_prefix_search_advance
 
     V, w, t = case["V"], case["width"], case["t"]
     Kp = len(case["nb"])
-    f64 = torch.float64
+    f64 = torch.float32 if case.get("f32") else torch.float64
     ext = torch.tensor([[[fl(x) for x in row] for row in case["ext"]]], dtype=f64).view(1, Kp, V)
     nonext = torch.tensor([[fl(x) for x in case["nonext"]]], dtype=f64).view(1, V)
     blank = torch.tensor([fl(case["blank"])], dtype=f64)
@@ -129,22 +135,65 @@ def run_advance(case):
     last = torch.tensor([case["last"]], dtype=torch.long)
     lens = torch.tensor([case["lens"]], dtype=torch.long)
     isp = torch.tensor([case["isp"]], dtype=torch.bool).view(1, Kp, Kp)
+    pos, N = 0, 1
+    if case.get("batch"):
+        N, pos = case["batch"]
+        sh = [(n - pos) % N for n in range(N)]         # element `pos` is the case itself, the others are shifted
+        roll = lambda x, d: torch.cat([x.roll(k, d) for k in sh], 0)  # noqa: E731
+        nb, b, ext = roll(nb, 1), roll(b, 1), roll(ext, 2)
+        nonext, blank = roll(nonext, 1), torch.cat([blank * (1.0 if k == 0 else 0.5) for k in sh], 0)
+        y, last, lens, isp = y.repeat(1, N, 1), last.repeat(N, 1), lens.repeat(N, 1), isp.repeat(N, 1, 1)
+    layout = case.get("layout", 0)
+    unfused = all(list(r) == list(case["nonext"]) for r in case["ext"])
+    if layout and unfused and not case.get("batch"):
+        ext = nonext.unsqueeze(1).expand(1, Kp, V)              # what CTCPrefixSearch passes without an LM
+    if layout == 1:
+        tr = lambda x, d0, d1: x.transpose(d0, d1).contiguous().transpose(d0, d1)  # noqa: E731
+        if not (unfused and not case.get("batch")):
+            ext = tr(ext, 1, 2)
+        nonext, nb, b = tr(nonext, 0, 1), tr(nb, 0, 1), tr(b, 0, 1)
+        y, isp, last, lens = tr(y, 0, 2), tr(isp, 1, 2), tr(last, 0, 1), tr(lens, 0, 1)
+    elif layout == 2:
+        def sl(x, d):
+            shape = list(x.shape)
+            shape[d] = 2 * shape[d] + 1
+            buf = torch.zeros(shape, dtype=x.dtype) if x.dtype == torch.bool else torch.ones(shape, dtype=x.dtype)
+            idx = [slice(None)] * x.dim()
+            idx[d] = slice(1, None, 2)
+            buf[tuple(idx)] = x
+            return buf[tuple(idx)]
+        if not (unfused and not case.get("batch")):
+            ext = sl(ext, 2)
+        nonext, blank, nb, b = sl(nonext, 1), sl(blank, 0), sl(nb, 1), sl(b, 1)
+        y, isp, last, lens = sl(y, 2), sl(isp, 2), sl(last, 1), sl(lens, 1)
+    if case.get("alias") and case["last"] == case["lens"]:
+        last = lens
+    args = [ext, nonext, blank, nb, b, y, last, lens, isp]
+    saved = [a.clone() for a in args]
     try:
-        (y_n, last_n, lens_n, (nb_n, b_n), isp_n, src_n, ne_n) = ctc_prefix_search_advance(
-            (ext, nonext, blank), w, (nb, b), y, last, lens, isp)
+        if case.get("call") == "kw":
+            res = ctc_prefix_search_advance(prev_is_prefix=isp, y_prev_lens=lens, y_prev_last=last, y_prev=y,
+                                            probs_prev=(nb, b), width=w, probs_t=(ext, nonext, blank))
+        else:
+            res = ctc_prefix_search_advance((ext, nonext, blank), w, (nb, b), y, last, lens, isp)
+        (y_n, last_n, lens_n, (nb_n, b_n), isp_n, src_n, ne_n) = res
     except Exception as e:  # the property promises no exception on well-formed input
         return {"exc": exc_kind(e)}
-    if tuple(y_n.shape) != (t + 1, 1, w):
+    if any(not torch.equal(a, c) for a, c in zip(args, saved)):
+        return {"exc": "InputModified"}
+    if tuple(y_n.shape) != (t + 1, N, w):
         return {"exc": "shape:" + str(tuple(y_n.shape))}
+    if case.get("f32") and (nb_n.dtype != torch.float32 or b_n.dtype != torch.float32):
+        return {"exc": "dtype:" + str(nb_n.dtype)}
     out = {
-        "y": [[int(v) for v in y_n[:, 0, k]] for k in range(w)],
-        "last": [int(v) for v in last_n[0]],
-        "lens": [int(v) for v in lens_n[0]],
-        "nb": [canon_float(v) for v in nb_n[0]],
-        "b": [canon_float(v) for v in b_n[0]],
-        "isp": [[int(bool(v)) for v in row] for row in isp_n[0]],
-        "src": [int(v) for v in src_n[0]],
-        "nonext": [int(bool(v)) for v in ne_n[0]],
+        "y": [[int(v) for v in y_n[:, pos, k]] for k in range(w)],
+        "last": [int(v) for v in last_n[pos]],
+        "lens": [int(v) for v in lens_n[pos]],
+        "nb": [canon_float(v) for v in nb_n[pos]],
+        "b": [canon_float(v) for v in b_n[pos]],
+        "isp": [[int(bool(v)) for v in row] for row in isp_n[pos]],
+        "src": [int(v) for v in src_n[pos]],
+        "nonext": [int(bool(v)) for v in ne_n[pos]],
     }
     K = min(w, Kp * (V + 1))
     out["choice"] = [Kp * V + out["src"][k] if out["nonext"][k] else out["src"][k] * V + out["last"][k]
@@ -307,9 +356,9 @@ def _mk_lm(case):
         """state = hash of the prefix read so far; row = table[state].  Only correct if the search
         carries the state of every beam slot along with the slot (extract_by_src / mix_by_mask)."""
 
-        def __init__(self, V, M, a, h0, table):
+        def __init__(self, V, M, a, h0, table, raw):
             super().__init__(V)
-            self.M, self.a, self.h0 = M, a, h0
+            self.M, self.a, self.h0, self.raw = M, a, h0, raw
             self.register_buffer("table", table)
 
         def update_input(self, prev, hist):
@@ -332,21 +381,40 @@ def _mk_lm(case):
                 x = hist.gather(0, (idx - 1).clamp(min=0).unsqueeze(0)).squeeze(0)
                 x = torch.where(idx == 0, torch.full_like(x, self.vocab_size), x)
             h1 = (self.a * prev["h"] + x + 1) % self.M
-            if raw:
+            if self.raw:
                 # unnormalised scores (a large common offset included): the module normalises them itself
                 return self.table[h1], {"h": h1}
             return self.table[h1].log_softmax(-1), {"h": h1}
 
     lm = case["lm"]
-    raw = bool(lm.get("raw"))
-    return HashLM(case["V"], lm["M"], lm["a"], lm["h0"], torch.tensor(lm["table"], dtype=_dt(case)))
+    first = HashLM(case["V"], lm["M"], lm["a"], lm["h0"], torch.tensor(lm["table"], dtype=_dt(case)), bool(lm.get("raw")))
+    if not lm.get("fuse"):
+        return first
+    # the library's own shallow-fusion LM as the fused model: first + beta2 * second, NOT normalised
+    from pydrobert.torch.modules import MixableShallowFusionLanguageModel
+    second = HashLM(case["V"], lm["M"], lm["a"], lm["h0"], torch.tensor(lm["fuse"]["table2"], dtype=_dt(case)),
+                    bool(lm["fuse"].get("raw2")))
+    return MixableShallowFusionLanguageModel(first, second, lm["fuse"]["beta2"])
+
+
+def _lm_table(case):
+    """what the fused LM returns per hash state (before the module's own normalisation), computed with the
+    same torch operations in the same order"""
+    lm = case["lm"]
+    tab = torch.tensor(lm["table"], dtype=_dt(case))   # float32 values are exact doubles
+    if not lm.get("raw"):
+        tab = tab.log_softmax(-1)
+    if lm.get("fuse"):
+        tab2 = torch.tensor(lm["fuse"]["table2"], dtype=_dt(case))
+        if not lm["fuse"].get("raw2"):
+            tab2 = tab2.log_softmax(-1)
+        tab = tab + lm["fuse"]["beta2"] * tab2
+    return tab
 
 
 def lm_rows(case):
     """the rows the module derives from the LM's output, per LM state (oracle, regime T)"""
-    tab = torch.tensor(case["lm"]["table"], dtype=_dt(case))   # float32 values are exact doubles
-    if not case["lm"].get("raw"):
-        tab = tab.log_softmax(-1)
+    tab = _lm_table(case)
     if case["fusion"] == "mix":
         rows = tab.softmax(-1)
     else:
@@ -354,16 +422,59 @@ def lm_rows(case):
     return [[canon_float(v) for v in r] for r in rows]
 
 
-def run_search(case, record=True):
-    """Returns {'elems': [ {y (valid parts), lens, probs, choices} per batch element ], 'S': ..} or {'exc':..}"""
+def _initial_state(case):
+    """explicit initial LM state (third argument of the call) when the case has per-element h0s"""
+    lm = case.get("lm")
+    if not lm or lm.get("h0s") is None or case["fusion"] == "none":
+        return None
+    h = torch.tensor(lm["h0s"], dtype=torch.long)
+    if lm.get("fuse"):
+        return {"first.h": h, "second.h": h.clone()}
+    return {"h": h}
+
+
+SEARCH_VIAS = ("script", "kw", "views", "reuse", "i32lens")
+
+
+def _search_inputs(case, via=None):
+    T, N, V = case["T"], case["N"], case["V"]
+    logits = torch.tensor(case["logits"], dtype=_dt(case)).view(T, N, V + 1)
+    lens = None if case["lens"] is None else torch.tensor(case["lens"], dtype=torch.long)
+    if via == "views":
+        form = case.get("form", 0) % 3
+        if form == 0:        # batch-first storage
+            logits = logits.transpose(0, 1).contiguous().transpose(0, 1)
+        elif form == 1:      # every second column of a wider buffer, storage offset 1
+            buf = logits.new_full((T, N, 2 * (V + 1) + 1), 3.0)
+            buf[..., 1::2] = logits
+            logits = buf[..., 1::2]
+        else:                # every second frame of a longer buffer
+            buf = logits.new_full((2 * T + 1, N, V + 1), -2.0)
+            buf[1::2] = logits
+            logits = buf[1::2]
+        if lens is not None:
+            buf = lens.new_full((2 * N + 1,), 1)
+            buf[1::2] = lens
+            lens = buf[1::2]
+    if via == "i32lens" and lens is not None:
+        lens = lens.to(torch.int32)
+    return logits, lens
+
+
+def run_search(case, record=True, via=None):
+    """Returns {'elems': [ {y (valid parts), lens, probs, choices} per batch element ], 'S': ..} or {'exc':..}.
+    via = another entry point / call form / layout / call history for the same logical input (no step recording:
+    the answer is compared with the plain call's answer): 'script' (torch.jit.script(module), no LM: the library
+    does not script fused searches), 'kw' (keyword arguments), 'views' (non-contiguous logits / lens), 'i32lens',
+    'reuse' (one module object first used on another input, then twice on this one)."""
     import pydrobert.torch._decoding as dec
     from pydrobert.torch.modules import CTCPrefixSearch
 
     T, N, V, w = case["T"], case["N"], case["V"], case["width"]
-    logits = torch.tensor(case["logits"], dtype=_dt(case)).view(T, N, V + 1)
-    lens = None if case["lens"] is None else torch.tensor(case["lens"], dtype=torch.long)
+    logits, lens = _search_inputs(case, via)
     fused = case["fusion"] != "none"
     lm = _mk_lm(case) if (fused and case.get("lm")) else None
+    init = _initial_state(case)
     calls = []
     orig = dec.ctc_prefix_search_advance
 
@@ -376,16 +487,51 @@ def run_search(case, record=True):
         calls.append([[int(v) for v in row] for row in ind])
         return res
 
+    def call(search):
+        if via == "kw" and init is None:
+            return search(lens=lens, logits=logits) if lens is not None or case.get("form", 0) % 2 else search(logits=logits)
+        if init is not None:
+            return search(logits, lens, init)
+        return search(logits, lens)
+
+    saved = (logits.clone(), None if lens is None else lens.clone(), None if init is None else {k: v.clone() for k, v in init.items()})
     try:
         search = CTCPrefixSearch(w, case["beta"], lm, valid_mixture=(case["fusion"] == "mix")) if lm is not None \
             else CTCPrefixSearch(w)
-        with mock.patch.object(dec, "ctc_prefix_search_advance", spy):
-            y, y_lens, y_probs = search(logits, lens)
+        if via is None:
+            with mock.patch.object(dec, "ctc_prefix_search_advance", spy):
+                y, y_lens, y_probs = call(search)
+        else:
+            if via == "script":
+                search = torch.jit.script(search)
+            if via == "reuse":
+                oN, oT = N + 1 + case.get("form", 0) % 2, max(1, (T + 1 + case.get("form", 0)) % 5)
+                g = torch.Generator().manual_seed(case.get("form", 0))
+                ol = torch.randn(oT, oN, V + 1, generator=g, dtype=torch.float64).to(_dt(case))
+                try:
+                    search(ol, torch.randint(0, oT + 1, (oN,), generator=g))
+                except Exception:  # noqa: BLE001
+                    pass
+                first = call(search)
+            y, y_lens, y_probs = call(search)
+            if via == "reuse":
+                S1 = y.size(0)
+                m = torch.arange(S1).view(S1, 1, 1) < y_lens
+                if not (first[0].shape == y.shape and torch.equal(first[1], y_lens)
+                        and torch.equal(first[0].masked_fill(~m, 0), y.masked_fill(~m, 0))
+                        and torch.equal(first[2].nan_to_num(nan=7.0), y_probs.nan_to_num(nan=7.0))):
+                    return {"exc": "HistoryDependent", "msg": "two calls of one module object on the same input differ"}
     except Exception as e:
         return {"exc": exc_kind(e), "msg": str(e)[:200]}
+    now = (logits, lens, init)
+    if not (torch.equal(saved[0], now[0]) and (lens is None or torch.equal(saved[1], lens))
+            and (init is None or all(torch.equal(saved[2][k], init[k]) for k in init))):
+        return {"exc": "InputModified", "msg": "the call overwrote logits / lens / initial_state in place"}
     S = int(y.shape[0])
     if tuple(y.shape[1:]) != (N, w) or tuple(y_lens.shape) != (N, w) or tuple(y_probs.shape) != (N, w):
         return {"exc": "shape"}
+    if y_probs.dtype != _dt(case) or y.dtype != torch.long or y_lens.dtype != torch.long:
+        return {"exc": "dtype", "msg": str((y.dtype, y_lens.dtype, y_probs.dtype))}
     elems = []
     for n in range(N):
         ls = [int(v) for v in y_lens[n]]
@@ -394,6 +540,38 @@ def run_search(case, record=True):
                       "probs": [canon_float(v) for v in y_probs[n]],
                       "choices": [c[n] for c in calls]})
     return {"elems": elems, "S": S}
+
+
+def via_check(case, out):
+    """relation: the answer does not depend on the entry point / call form / memory layout / call history.
+    Positive-mass prefixes must be the same with the same masses (tolerance as for the model); a near-tie at the
+    pruning boundary is excused.  Returns a description of the difference or None."""
+    via = case.get("via")
+    if via is None or "exc" in out:
+        return None
+    if via == "script" and case["fusion"] != "none":
+        return None
+    o2 = run_search(case, via=via)
+    if "exc" in o2:
+        return f"the same input through '{via}' raises {o2['exc']}: {o2.get('msg', '')}"
+    if o2["S"] != out["S"]:
+        return f"through '{via}' y has {o2['S']} rows instead of {out['S']}"
+    tol = 1e-9 if not _f32(case) else float(EPS32)
+    for n, (a, b) in enumerate(zip(out["elems"], o2["elems"])):
+        if any(p in ("nan", "+inf") for p in b["probs"]):
+            return f"element {n}: non-finite probability through '{via}': {b['probs']}"
+        da = {tuple(c): fl(p) for c, p in zip(a["y"], a["probs"]) if fl(p) > tol}
+        db = {tuple(c): fl(p) for c, p in zip(b["y"], b["probs"]) if fl(p) > tol}
+        va = sorted(fl(p) for p in a["probs"] if p != NEG)
+        if set(da) != set(db):
+            if any(abs(x - y) < tol for x, y in zip(va, va[1:])):
+                continue
+            return f"element {n}: plain call gives {da}, the same input through '{via}' gives {db}"
+        if any(abs(da[k] - db[k]) > tol for k in da):
+            return f"element {n}: plain call gives {da}, the same input through '{via}' gives {db}"
+        if [p == NEG for p in a["probs"]] != [p == NEG for p in b["probs"]]:
+            return f"element {n}: -inf slots differ through '{via}': {a['probs']} vs {b['probs']}"
+    return None
 
 
 def _probs_of(case):
@@ -410,12 +588,13 @@ def _lenmax(case):
     return case["T"] if case["lens"] is None else (max(case["lens"]) if case["lens"] else 0)
 
 
-def _fus_lm_terms(case):
+def _fus_lm_terms(case, n=None):
     if case["fusion"] == "none" or not case.get("lm") or not case["beta"]:  # "if self.lm is None or not self.beta"
         return "NoLM", "no_lm"
     lm = case["lm"]
     tab = cl([clq(r) for r in lm_rows(case)])
-    lmt = f"(hash_lm {cn(lm['M'])} {cn(lm['a'])} {cn(lm['h0'])} {cn(case['V'])} {tab})"
+    h0 = lm["h0"] if lm.get("h0s") is None or n is None else lm["h0s"][n]   # explicit initial state: per element
+    lmt = f"(hash_lm {cn(lm['M'])} {cn(lm['a'])} {cn(h0)} {cn(case['V'])} {tab})"
     if case["fusion"] == "mix":
         return f"(Mix {cqc(Fraction(case['beta']))})", lmt
     return "Plain", lmt
@@ -439,10 +618,10 @@ def search_terms(case, out):
     if "exc" in out:
         return ["false"]
     probs = _probs_of(case)
-    fus, lmt = _fus_lm_terms(case)
     lm_ = _lenmax(case)
     terms = []
     for n, e in enumerate(out["elems"]):
+        fus, lmt = _fus_lm_terms(case, n)
         if _elem_bad(e) or out["S"] != lm_:
             terms.append("false")
             continue
@@ -482,6 +661,7 @@ def spec_terms(case, out, limit=None):
                 terms.append(None)
                 continue
         ln = _len_of(case, n)
+        fus, lmt = _fus_lm_terms(case, n)
         frames = _frames_term(probs, n, ln, case["V"])
         outl = cl([f"({cln(c)}, {cmass(p)})" for c, p in zip(e["y"], e["probs"])])
         terms.append(f"(let frames := {frames} in spec_okb {cn(case['V'])} {cn(case['width'])} frames "
@@ -499,6 +679,7 @@ def search_show(case, out):
     for n, e in enumerate(out["elems"]):
         if _elem_bad(e):
             continue
+        fus, lmt = _fus_lm_terms(case, n)
         items.append(f"search {cn(case['V'])} {cn(case['width'])} {fus} {lmt} {cn(_len_of(case, n))} "
                      f"{_frames_term(probs, n, lm_, case['V'])} {cl([cln(c) for c in e['choices']])}")
     return cl(items) if items else "tt"
@@ -542,6 +723,9 @@ def alone_check(case, out):
             continue
         sub = dict(case, N=1, T=ln, lens=None,
                    logits=[[case["logits"][t][n]] for t in range(ln)])
+        sub.pop("via", None)
+        if case.get("lm") and case["lm"].get("h0s") is not None:
+            sub["lm"] = dict(case["lm"], h0s=[case["lm"]["h0s"][n]])
         o2 = run_search(sub)
         if "exc" in o2:
             return f"element {n} alone raises {o2['exc']}"
@@ -605,6 +789,89 @@ def gen_search(rng, big=False):
             if V > 1:
                 case["lm"]["table"][row][rng.randrange(V)] = -math.inf
     return case
+
+
+def gen_search_robust(rng):
+    """robustness dimensions on top of gen_search: fused LMs that are NOT normalised (raw O(1) scores with a common
+    offset; the library's own MixableShallowFusionLanguageModel first + beta2 * second as the fused model) under both
+    fusion equations, an explicit per-element initial LM state (third call argument), float32, and the same logical
+    input through another entry point / call form / memory layout / call history (case['via'], see run_search)."""
+    while True:
+        case = gen_search(rng)
+        V, N, T = case["V"], case["N"], case["T"]
+        if rng.random() < 0.55 and case["fusion"] == "none":
+            # more fused cases than gen_search has; valid mixture as often as plain fusion
+            case["fusion"] = rng.choice(["plain", "mix"])
+            case["beta"] = rng.choice([0.0, 0.25, 0.5, 1.0, 0.2, 0.7])
+            M = rng.choice([2, 3, 5])
+            case["lm"] = dict(M=M, a=rng.choice([1, 2, 3]), h0=rng.randrange(M),
+                              table=[[round(rng.gauss(0, 1.2), 3) for _ in range(V)] for _ in range(M)])
+        lm = case["lm"]
+        if lm is not None:
+            if rng.random() < 0.5:
+                off = rng.choice([0.0, 2.0, -3.0, 5.5])
+                lm["raw"] = True
+                lm["table"] = [[(v if v == -math.inf else round(v + off, 3)) for v in r] for r in lm["table"]]
+            if rng.random() < 0.45:
+                lm["fuse"] = dict(beta2=rng.choice([0.0, 0.3, 1.0, 2.0, -0.5]), raw2=rng.random() < 0.4,
+                                  table2=[[round(rng.gauss(0, 1.2) + 1.5, 3) for _ in range(V)] for _ in range(lm["M"])])
+            if rng.random() < 0.6:
+                lm["h0s"] = [rng.randrange(lm["M"]) for _ in range(N)]
+        if rng.random() < 0.15:
+            case["dtype"] = "float32"
+        vias = [v for v in SEARCH_VIAS if not (v == "script" and case["fusion"] != "none")
+                and not (v == "i32lens" and case["lens"] is None)]
+        if rng.random() < 0.6:
+            case["via"], case["form"] = rng.choice(vias), rng.randrange(12)
+        return case
+
+
+def gen_second_frame(rng):
+    """the merge lookup of the SECOND frame (y_prev has exactly one row): the empty prefix and one-token prefixes
+    with tokens other than 0 survive frame 0 (finite blank and label scores, width >= 2), T >= 2, V >= 2; half
+    of the cases ragged so that an element stops after one or two frames."""
+    V = rng.choice([2, 2, 3, 3, 4])
+    T = rng.choice([2, 2, 3, 4])
+    N = rng.choice([1, 1, 2, 3])
+    logits = _rand_logits(rng, T, N, V, "dense")
+    for n in range(N):
+        # frame 0: blank and a non-zero token near the top, token 0 low
+        logits[0][n][V] = round(rng.gauss(1.0, 0.5), 3)
+        logits[0][n][rng.randint(1, V - 1)] = round(rng.gauss(1.0, 0.5), 3)
+        logits[0][n][0] = round(rng.gauss(-1.5, 0.5), 3)
+    case = dict(kind="search", T=T, N=N, V=V, width=rng.choice([2, 2, 3, 3, 4, V + 1, V + 2, 2 * V + 1]),
+                logits=logits, lens=None, fusion="none", beta=0.2, lm=None)
+    if rng.random() < 0.5:
+        case["lens"] = [rng.choice([T, 2, rng.randint(1, T)]) for _ in range(N)]
+    if rng.random() < 0.4:
+        case["fusion"] = rng.choice(["plain", "mix"])
+        case["beta"] = rng.choice([0.25, 0.5, 1.0, 0.2])
+        M = rng.choice([2, 3, 5])
+        case["lm"] = dict(M=M, a=rng.choice([1, 2, 3]), h0=rng.randrange(M),
+                          table=[[round(rng.gauss(0, 1.2), 3) for _ in range(V)] for _ in range(M)])
+    return case
+
+
+def situation_counts(chk, c, out):
+    """histogram of the situations the independent reviews singled out, read off the recorded topk answers"""
+    if "exc" in out:
+        return
+    V = c["V"]
+    for n, e in enumerate(out["elems"]):
+        ch = e["choices"]
+        if _len_of(c, n) >= 2 and len(ch) >= 2 and V in ch[0] and any(0 < v < V for v in ch[0]):
+            chk.count("situation:second_frame,empty_and_nonzero_token_prefix_alive")
+            break
+    if c["fusion"] == "mix" and c["beta"] and c.get("lm") and (c["lm"].get("raw") or (
+            c["lm"].get("fuse") and (c["lm"]["fuse"]["beta2"] != 0 or c["lm"]["fuse"].get("raw2")))):
+        chk.count("situation:valid_mixture,unnormalised_fused_lm")
+    if c["fusion"] == "plain" and c["beta"] and c.get("lm") and (c["lm"].get("raw") or (
+            c["lm"].get("fuse") and (c["lm"]["fuse"]["beta2"] != 0 or c["lm"]["fuse"].get("raw2")))):
+        chk.count("situation:plain_fusion,unnormalised_fused_lm")
+    if c.get("lm") and c["lm"].get("fuse") and c["fusion"] != "none" and c["beta"]:
+        chk.count("situation:library_shallow_fusion_lm,beta2%s0" % ("!=" if c["lm"]["fuse"]["beta2"] else "="))
+    if c.get("lm") and c["lm"].get("h0s") is not None and c["fusion"] != "none" and c["beta"]:
+        chk.count("situation:explicit_initial_state" + (",differs_between_elements" if len(set(c["lm"]["h0s"])) > 1 else ""))
 
 
 def _xrow(rng, n, f32, lm=False, snap=True):
@@ -752,8 +1019,11 @@ def _cands(case):
     N, T = case["N"], case["T"]
     for n in range(N):
         if N > 1:
-            yield dict(case, N=N - 1, logits=[[r for i, r in enumerate(row) if i != n] for row in case["logits"]],
-                       lens=None if case["lens"] is None else [l for i, l in enumerate(case["lens"]) if i != n])
+            c2 = dict(case, N=N - 1, logits=[[r for i, r in enumerate(row) if i != n] for row in case["logits"]],
+                      lens=None if case["lens"] is None else [l for i, l in enumerate(case["lens"]) if i != n])
+            if case.get("lm") and case["lm"].get("h0s") is not None:
+                c2["lm"] = dict(case["lm"], h0s=[h for i, h in enumerate(case["lm"]["h0s"]) if i != n])
+            yield c2
     if T > 0:
         yield dict(case, T=T - 1, logits=case["logits"][:-1],
                    lens=None if case["lens"] is None else [min(l, T - 1) for l in case["lens"]])
@@ -841,6 +1111,30 @@ def gen_cases(chk):
         c = gen_search_extreme(rng)
         c["stream"] = "search-extreme-magnitude"
         cases.append(c)
+    for i in range(2500 if thorough else 190):
+        c = gen_search_robust(rng)
+        c["stream"] = "search-robust"
+        cases.append(c)
+    for i in range(800 if thorough else 60):
+        c = gen_second_frame(rng)
+        c["stream"] = "search-second-frame"
+        cases.append(c)
+    # robustness dimensions of the step function: about half of the generated step cases go through a
+    # non-contiguous layout / aliased arguments / keyword call / float32 / a position inside a batch
+    for c in cases:
+        if c["kind"] != "advance" or c["stream"] == "corpus":
+            continue
+        if rng.random() < 0.45:
+            c["layout"] = rng.choice([1, 2])
+        if rng.random() < 0.5:
+            c["alias"] = True
+        if rng.random() < 0.25:
+            c["call"] = "kw"
+        if c["stream"] != "advance-chain" and rng.random() < 0.2:
+            c["f32"] = True
+        if rng.random() < 0.3:
+            N = rng.choice([2, 3])
+            c["batch"] = [N, rng.randrange(N)]
     return cases
 
 
@@ -882,8 +1176,10 @@ def run(chk, cases=None):
     outs, terms, owner = [], [], []
     sterms, sowner = [], []
     direct = []
+    streams = []
     for i, c in enumerate(cases):
         stream = c.pop("stream", "random")
+        streams.append(stream)
         out = run_impl(c)
         outs.append(out)
         for t in model_terms(c, out):
@@ -896,6 +1192,12 @@ def run(chk, cases=None):
             chk.count("advance:Kp=%d" % Kp)
             chk.count("advance:width" + ("<" if c["width"] < Kp * (c["V"] + 1) else ">" if c["width"] > Kp * (c["V"] + 1) else "=") + "ncand")
             chk.count("advance:has-invalid-slot=%s" % any(x == NEG for x in c["nb"] + c["b"]))
+            chk.count("advance:layout=%d" % c.get("layout", 0))
+            for k in ("alias", "call", "f32", "batch"):
+                if c.get(k):
+                    chk.count("advance:%s" % k)
+            if c["t"] == 1 and any(l == 0 for l in c["lens"]) and any(l == 1 and y[0] != 0 for l, y in zip(c["lens"], c["y"])):
+                chk.count("situation:advance,second_frame,empty_and_nonzero_token_prefix")
             if "exc" in out or _bad_number(out, ("nb", "b")):
                 direct.append(i)
         else:
@@ -909,9 +1211,12 @@ def run(chk, cases=None):
             chk.count("search:N=%d" % c["N"])
             chk.count("search:lens=%s" % ("none" if c["lens"] is None else "has0" if 0 in c["lens"] else "ragged" if len(set(c["lens"])) > 1 or c["lens"][0] != c["T"] else "full"))
             chk.count("search:width%snprefixes" % ("<" if c["width"] < _nprefixes(c["V"], _lenmax(c)) else ">="))
-            why = light_spec(c, out) or alone_check(c, out)
+            why = light_spec(c, out) or alone_check(c, out) or via_check(c, out)
             if why is not None:
                 direct.append(i)
+                chk.count("failing:direct:stream=%s" % stream)
+            chk.count("search:via=%s" % c.get("via", "plain"))
+            situation_counts(chk, c, out)
             for t in spec_terms(c, out, limit=spec_limit):
                 if t is not None:
                     sterms.append(t)
@@ -921,6 +1226,10 @@ def run(chk, cases=None):
     bad = sorted({owner[j] for j, ok in enumerate(res) if not ok})
     sbad = sorted({sowner[j] for j, ok in enumerate(sres) if not ok})
     chk.extra["model_disagreements"] = len(bad)
+    for i in bad:
+        chk.count("failing:model:stream=%s" % streams[i])      # absent on a tree the check accepts
+    for i in sbad:
+        chk.count("failing:spec:stream=%s" % streams[i])
     chk.extra["spec_evaluations"] = len(sterms)
     chk.extra["spec_rejections"] = len(sbad)
     chk.extra["direct_clause_failures"] = len(direct)
@@ -932,7 +1241,7 @@ def run(chk, cases=None):
         c, out = cases[i], outs[i]
         rec, _ = judge(chk, c, out)
         if c["kind"] == "search":
-            why = light_spec(c, out) or alone_check(c, out)
+            why = light_spec(c, out) or alone_check(c, out) or via_check(c, out)
             rec["what"] = "CTCPrefixSearch output violates the property: " + str(why)
         chk.report(rec)
         concrete = True
